@@ -1475,6 +1475,135 @@ def thread_variants(body, limit=150):
     return done
 
 
+# --------------------------------------------------------------------------- loops over literal arrays
+def unroll_array_loops(body, max_n=8):
+    """`for x in [a, b, c] { body }` (an array literal of at most max_n elements) is replaced by the
+    body once per element, in order: each copy starts with `next_result = Some(element_k)` and its
+    back edges lead to the next copy (the last one to the loop exit).  `break` / `return` / `?` edges
+    keep their targets.  Returns the number of loops unrolled."""
+    done = 0
+    for _round in range(4):
+        fa = FnA(Body(body))
+        blocks = body["blocks"]
+        cand = None
+        for H, t in fa.calls():
+            if t.get("callee") != "std::iter::Iterator::next" or not t["args"] or t.get("target") is None or blocks[H].get("unrolled"):
+                continue
+            # iterator local behind the `&mut it` argument
+            p = op_place(t["args"][0])
+            it_l = None
+            for _ in range(6):
+                if p is None:
+                    break
+                ds = [d for d in fa.body.defs.get(p["l"], []) if not d[3]["p"]]
+                if len(ds) != 1 or ds[0][0] != "assign":
+                    break
+                rv = ds[0][4]
+                if rv["k"] == "ref" and not rv["place"]["p"]:
+                    it_l = rv["place"]["l"]
+                    break
+                if rv["k"] == "ref" and all(e == "*" for e in rv["place"]["p"]):
+                    p = {"l": rv["place"]["l"], "p": []}    # reborrow `&mut *r`
+                    continue
+                if rv["k"] == "use":
+                    p = op_place(rv["op"])
+                    continue
+                break
+            if it_l is None:
+                continue
+            # it = into_iter(move ARR) ; ARR = [ops]
+            ops = None
+            l = it_l
+            for _ in range(5):
+                ds = [d for d in fa.body.defs.get(l, []) if not d[3]["p"]]
+                if len(ds) != 1:
+                    break
+                d = ds[0]
+                if d[0] == "call" and (d[4].get("callee") or "").endswith("IntoIterator::into_iter") and d[4]["args"]:
+                    q = op_place(d[4]["args"][0])
+                    if q is None or q["p"]:
+                        break
+                    l = q["l"]
+                    continue
+                if d[0] == "assign" and d[4]["k"] == "use" and op_place(d[4]["op"]) is not None and not op_place(d[4]["op"])["p"]:
+                    l = op_place(d[4]["op"])["l"]
+                    continue
+                if d[0] == "assign" and d[4]["k"] == "agg" and d[4]["kind"] == "array":
+                    ops = d[4]["ops"]
+                break
+            if ops is None or not (1 <= len(ops) <= max_n):
+                continue
+            T = t["target"]
+            sw = blocks[T]["term"]
+            if sw["k"] != "switch" or t["dest"]["p"]:
+                continue
+            m = {v: b for v, b in sw["targets"]}
+            if 0 not in m or 1 not in m:
+                continue
+            loops = [(h, bs, be) for h, bs, be in fa.loops() if H in bs and T in bs and m[1] in bs and m[0] not in bs]
+            if not loops:
+                continue
+            h, bs, be = min(loops, key=lambda x: len(x[1]))
+            # the header part: blocks of the loop from which H is reached before the body (header chain h..H, T)
+            head = set()
+            x = h
+            for _ in range(6):
+                head.add(x)
+                if x == H:
+                    break
+                ss = fa.succ.get(x, [])
+                if len(ss) != 1:
+                    break
+                x = ss[0]
+            if H not in head:
+                continue
+            head.add(T)
+            cand = (H, T, h, bs, m, ops, t["dest"]["l"], head)
+            break
+        if cand is None:
+            return done
+        H, T, h, bs, m, ops, NX, head = cand
+        inner = sorted(b for b in bs if b not in head)
+        n = len(ops)
+        span = blocks[H]["term"]["span"]
+        entries = []
+        maps = []
+        for k in range(n):
+            base = len(blocks)
+            idx = {b: base + i for i, b in enumerate(inner)}
+            maps.append(idx)
+            for b in inner:
+                ob = blocks[b]
+                blocks.append({"i": idx[b], "cleanup": ob["cleanup"], "stmts": copy.deepcopy(ob["stmts"]), "term": copy.deepcopy(ob["term"]), "inl": ob.get("inl", ()), "unrolled": True})
+            e = len(blocks)
+            blocks.append({"i": e, "cleanup": False, "unrolled": True, "inl": blocks[H].get("inl", ()),
+                           "stmts": [{"k": "assign", "place": {"l": NX, "p": []}, "span": span,
+                                      "rv": {"k": "agg", "kind": "adt", "name": "std::option::Option", "variant": "Some", "variant_idx": 1, "fields": ["0"], "ops": [copy.deepcopy(ops[k])]}}],
+                           "term": {"k": "goto", "target": idx[m[1]], "span": span}})
+            entries.append(e)
+        exit_b = m[0]
+        for k in range(n):
+            idx = maps[k]
+            nxt = entries[k + 1] if k + 1 < n else exit_b
+            def bmap(b, idx=idx, nxt=nxt):
+                if b in idx:
+                    return idx[b]
+                if b in head:
+                    return nxt          # back edge / continue: on to the next element
+                return b
+            for b in inner:
+                nb = blocks[idx[b]]
+                nb["term"] = remap_marked(nb["term"], lambda l: l, bmap)
+        # entry edges into the loop header now start the first copy
+        for b in range(len(blocks)):
+            if b in bs or blocks[b].get("unrolled"):
+                continue
+            blocks[b]["term"] = _retarget(blocks[b]["term"], h, entries[0])
+        blocks[H]["unrolled"] = True
+        done += 1
+    return done
+
+
 # --------------------------------------------------------------------------- named constants
 def fold_consts(j):
     """An operand naming a scalar `const` item is replaced by its value (the compiler's own
@@ -1509,8 +1638,10 @@ def normalize(j, known=None):
     fn_renames = alias_renamed_fns(j, load_sigs()) if known is None else []
     renamed = alias_params(j, load_params()) if known is None else 0
     known = load_known() if known is None else known
+    unrolled = sum(unroll_array_loops(b) for b in j["bodies"])
     inl = Inliner(j, known).run()
     des = Desugar(j).run()
+    unrolled += sum(unroll_array_loops(b) for b in j["bodies"])
     threaded = 0
     vthreaded = 0
     for b in j["bodies"]:
@@ -1523,6 +1654,7 @@ def normalize(j, known=None):
         "named_constants_folded": folded,
         "functions_renamed": ["%s -> %s" % (a_, b_) for a_, b_ in fn_renames],
         "parameters_aliased": renamed,
+        "array_loops_unrolled": unrolled,
         "adaptors_desugared": len(des.log),
         "closures_absorbed": des.absorbed,
         "threaded_edges": threaded,
